@@ -102,8 +102,15 @@ pub fn pipeline(a: &HashMap<String, String>) -> i32 {
             continue;
         }
         let isp = d.space_cat() >= 0 && rng.chance(1, 2);
-        let mgl = *rng.pick(&[0usize, 0, 2]);
-        let sents: Vec<Vec<u32>> = (0..6).map(|_| gen_sentence(&mut rng, &d, 10)).map(|s| s.into_iter().filter(|&c| c != 0x0A && c != 0x0D).collect()).collect();
+        let mgl = *rng.pick(&[0usize, 1, 2, 3]);
+        let mut sents: Vec<Vec<u32>> = (0..6).map(|_| gen_sentence(&mut rng, &d, 10)).map(|s| s.into_iter().filter(|&c| c != 0x0A && c != 0x0D).collect()).collect();
+        // long runs of one character: the grouping limit (-M) matters exactly at run = limit + 1 / + 2
+        for k in 0..3 {
+            let ch = *rng.pick(LETTERS);
+            let mut s: Vec<u32> = vec![ch; mgl + 1 + k];
+            s.push(*rng.pick(LETTERS));
+            sents.push(s);
+        }
         let stdin: String = sents.iter().map(|s| cps_to_string(s) + "\n").collect();
         let mut targs: Vec<String> = vec!["-i".into(), dic.clone(), "-O".into(), "detail".into()];
         if isp {
